@@ -9,6 +9,7 @@ FLOOR = 15      # 70% of the 22 obligation instances derived on the tree the rul
 EXPLANATION = ('The advisory lock file is taken (fs2 try_lock_exclusive) before any other file of the directory is read, written or deleted; '
                'the locked File is the one stored in DbInner.lock_file; DbInner/Db are constructed only on that path; unlock is called only '
                'at the end of Db::drop_inner after kill_logs; nothing forgets or replaces the lock file.')
+EXPLANATION += ' Added: a failed lock attempt changes nothing (also through Drop of a guard); the offline entry points (migrate, clear_column, add / drop / reset column) write nothing before they opened a handle.'
 ASSUMPTIONS = ['flock semantics across processes are those of fs2/OS (trusted)', 'unwind edges ignored']
 TRUSTED = ['rustc MIR construction (nightly)', 'pdb-facts driver', 'rule engine /verif/rules', 'FS primitive pattern table in props/C18.py']
 
